@@ -240,6 +240,15 @@ def streams(rng, tier):
         for c in take:
             lived.append(dict(c, lived=rng.randrange(1 << 30)))
     out.append(("lived-in", lived))
+    # the same cases on operands that are columns of a join result, their None being the padding of unmatched rows
+    made = []
+    for name, cases in out[:-1]:
+        cand = [c for c in cases if c.get("op") in ("bin", "un", "bc") and "writes" not in c
+                and any(t[0] == "N" for t in (c.get("a") or c.get("vals") or []))
+                and any(t[0] != "N" for t in (c.get("a") or c.get("vals") or []))]
+        for c in rng.sample(cand, min(len(cand), 150 if not thorough else 1500)):
+            made.append(dict(c, origin=rng.choice(["left", "full"])))
+    out.append(("join-made", made))
     return [(name, _dedupe(cases)) for name, cases in out]
 
 
@@ -355,7 +364,51 @@ class _Intern:
 _LIVED = None          # set per case by observe(): a seed -> operands are "lived-in" vectors (values.lived_in)
 
 
+_ORIGIN = None         # set per case by observe(): "left" / "full" -> operands that hold None are COLUMNS OF A JOIN RESULT,
+#                        their None being the padding of unmatched rows (see _via_join)
+ORIGIN_REALISED = [0]
+
+
+def _via_join(vals, adt, how):
+    """a vector holding vals that is a column of a left / full join result: the None are the padding of the rows
+    without a partner.  None when the join cannot give exactly these cells (then the caller builds a fresh vector)."""
+    from serif import Table, Vector
+    n = len(vals)
+    present = [i for i in range(n) if vals[i] is not None]
+    if not present or len(present) == n:
+        return None
+    try:
+        vcol = _mkvec_fresh([vals[i] for i in present], adt).alias("v")
+        if how == "full" and present == list(range(len(present))):
+            # the left-hand column of a full join: unmatched right rows come last, padded on the left
+            j = Table([Vector(present, name="k"), vcol]).full_join(Table([Vector(list(range(n)), name="k2")]), "k", "k2",
+                                                                   expect="many_to_many")
+            col = j.cols()[1]
+        else:
+            # the right-hand column of a left join
+            j = Table([Vector(list(range(n)), name="k")]).join(Table([Vector(present, name="k2"), vcol]), "k", "k2",
+                                                               expect="many_to_many")
+            col = j.cols()[-1]
+        got = list(col._underlying)
+        if len(got) != n or any(type(x) is not type(y) or (x is not None and x != y and not (x != x and y != y))
+                                for x, y in zip(got, vals)):
+            return None
+        _KEEP.append(j)
+        del _KEEP[:-8]
+        ORIGIN_REALISED[0] += 1
+        return col
+    except Exception:                                        # noqa: BLE001
+        return None
+
+
+_KEEP = []
+
+
 def _mkvec(vals, adt):
+    if _ORIGIN is not None:
+        v = _via_join(list(vals), adt, _ORIGIN)
+        if v is not None:
+            return v
     if _LIVED is not None and len(vals) >= 2:
         return V.lived_in(lambda xs: _mkvec_fresh(xs, adt), list(vals), _LIVED)
     return _mkvec_fresh(vals, adt)
@@ -683,13 +736,17 @@ def _obs_bc(case):
 
 
 def observe(case):
-    global _LIVED
+    global _LIVED, _ORIGIN
     _LIVED = case.get("lived")
+    _ORIGIN = case.get("origin")
     before = V.LIVED_REALISED[0]
+    obefore = ORIGIN_REALISED[0]
     try:
         o = {"bin": _obs_bin, "un": _obs_un, "tab": _obs_tab, "bc": _obs_bc}[case["op"]](case)
         if _LIVED is not None:
             o["lived_ok"] = V.LIVED_REALISED[0] > before
+        if _ORIGIN is not None:
+            o["origin_ok"] = ORIGIN_REALISED[0] > obefore
         return o
     except Exception as e:                                   # the observer itself must never raise
         return {"broken": f"{type(e).__name__}: {e}"[:200]}
@@ -862,6 +919,8 @@ def nontrivial(case, obs):
 
 
 def describe(case, obs, stream):
+    if "origin" in case:
+        return ["join-made:" + (case["origin"] + " join column" if obs.get("origin_ok") else "fell back to a fresh vector")]
     if "lived" in case:
         return ["lived-in:" + ("history realised" if obs.get("lived_ok") else "fell back to a fresh vector")]
     if "skip" in obs:
